@@ -297,9 +297,11 @@ class Gen:
             self.locked[tid] = False
 
 
-def run_pair(exe, lines, timeout=1800):
+def run_pair(exe, lines, timeout=None):
     """returns (cpp_lines, lean_lines, info)"""
     inp = "\n".join(lines) + "\n"
+    if timeout is None:
+        timeout = 60 + len(lines) // 200      # a stream of a few thousand requests takes well under a second
     env = dict(os.environ)
     env["ASAN_OPTIONS"] = "detect_leaks=1:abort_on_error=0:exitcode=77"
     env["UBSAN_OPTIONS"] = "print_stacktrace=1"
